@@ -1705,7 +1705,8 @@ end
     fuel, any interpretation `F` of the directive functions — either COMPLETES with the buffer holding its
     old content followed by exactly `t`, or leaves the common subset (`unspec`: an integer a double does
     not hold exactly, a print of a list or a map, a comparison outside the subset, the loop bound
-    `fuel`).  It never throws. -/
+    `fuel`).  It never throws.  `{call}`: under `CallRel` and `CallRelE` (the callee's function returns the text the
+    reference's `call` renders, and throws only where `call` does not render). -/
 theorem gen_complete_cmds_partial (hG : CallRel G R) (hGe : CallRelE G R) (cmds : CmdList) (sc : Scope) (r : JsStmts × Scope) (h : toCmds ae buf cmds sc = some r)
     (env : SEnv) (jenv : JEnv) (out : Bytes) (hs : ScOk sc) (hg : GoodBuf sc buf) (hrel : EnvRel R.entry sc env jenv)
     (hb : BufIs buf jenv out) (t : Bytes) (ht : refCmds F R ae cmds env = .val t) (fuel : Nat) :
